@@ -138,10 +138,12 @@ def creation_sql(catalog: str) -> str:
 
 
 def delete_table_metadata_sql(catalog: str, schema: str, table: str) -> str:
+    # blank the rows rather than delete them: duckdb can't delete a key and insert it again in one transaction
     return f"""
-        DELETE FROM {catalog}.information_schema._fs_tables_ext
+        UPDATE {catalog}.information_schema._fs_tables_ext SET comment = NULL
         WHERE ext_table_catalog = '{catalog}' AND ext_table_schema = '{schema}' AND ext_table_name = '{table}';
-        DELETE FROM {catalog}.information_schema._fs_columns_ext
+        UPDATE {catalog}.information_schema._fs_columns_ext
+        SET ext_character_maximum_length = NULL, ext_character_octet_length = NULL
         WHERE ext_table_catalog = '{catalog}' AND ext_table_schema = '{schema}' AND ext_table_name = '{table}';
     """
 
